@@ -67,18 +67,33 @@ func (j *JApi) ToJsonIndent() ([]byte, error) {
 	return j.Catalog().ToJsonIndent()
 }
 
-func (j *JApi) ToOpenAPIJson() ([]byte, error) {
-	o, err := openapi.NewOpenAPI(j.Catalog())
-	if err != nil {
-		return nil, err
+func (j *JApi) ToOpenAPIJson() (b []byte, err error) {
+	defer recoverOpenAPIPanic(&b, &err)
+
+	o, oErr := openapi.NewOpenAPI(j.Catalog())
+	if oErr != nil {
+		return nil, oErr
 	}
 	return json.Marshal(o)
 }
 
-func (j *JApi) ToOpenAPIJsonIndent() ([]byte, error) {
-	o, err := openapi.NewOpenAPI(j.Catalog())
-	if err != nil {
-		return nil, err
+func (j *JApi) ToOpenAPIJsonIndent() (b []byte, err error) {
+	defer recoverOpenAPIPanic(&b, &err)
+
+	o, oErr := openapi.NewOpenAPI(j.Catalog())
+	if oErr != nil {
+		return nil, oErr
 	}
 	return json.MarshalIndent(o, "", "  ")
+}
+
+// recoverOpenAPIPanic the OpenAPI converter (and the converter of the
+// jsight-schema-core) panics on the schemas which it can't represent (i.e. the
+// user type with the `empty` notation), such a panic have to be returned to the
+// caller as an ordinary error.
+func recoverOpenAPIPanic(b *[]byte, err *error) {
+	if r := recover(); r != nil {
+		*b = nil
+		*err = fmt.Errorf("the catalog cannot be converted to OpenAPI: %v", r)
+	}
 }
